@@ -270,8 +270,10 @@ func (f *formatter) StmtClass(n *ast.StmtClass) {
 
 	n.ClassTkn = f.newToken(token.T_CLASS, []byte("class"))
 
-	f.addFreeFloating(token.T_WHITESPACE, []byte(" "))
-	n.Name.Accept(f)
+	if n.Name != nil {
+		f.addFreeFloating(token.T_WHITESPACE, []byte(" "))
+		n.Name.Accept(f)
+	}
 
 	n.OpenParenthesisTkn = nil
 	n.CloseParenthesisTkn = nil
@@ -1045,7 +1047,9 @@ func (f *formatter) ExprArray(n *ast.ExprArray) {
 func (f *formatter) ExprArrayDimFetch(n *ast.ExprArrayDimFetch) {
 	n.Var.Accept(f)
 	n.OpenBracketTkn = f.newToken('[', []byte("["))
-	n.Dim.Accept(f)
+	if n.Dim != nil {
+		n.Dim.Accept(f)
+	}
 	n.CloseBracketTkn = f.newToken(']', []byte("]"))
 }
 
@@ -1061,7 +1065,9 @@ func (f *formatter) ExprArrayItem(n *ast.ExprArrayItem) {
 		f.addFreeFloating(token.T_WHITESPACE, []byte(" "))
 	}
 
-	n.Val.Accept(f)
+	if n.Val != nil {
+		n.Val.Accept(f)
+	}
 }
 
 func (f *formatter) ExprArrowFunction(n *ast.ExprArrowFunction) {
@@ -1445,6 +1451,10 @@ func (f *formatter) ExprVariable(n *ast.ExprVariable) {
 
 func (f *formatter) ExprYield(n *ast.ExprYield) {
 	n.YieldTkn = f.newToken(token.T_YIELD, []byte("yield"))
+	if n.Val == nil {
+		return
+	}
+
 	f.addFreeFloating(token.T_WHITESPACE, []byte(" "))
 
 	if n.Key != nil {
